@@ -5,6 +5,9 @@ import json, subprocess
 HOOK_COMMITS = []  # filled in as hook commits are made in /repo
 
 CHECKS = {
+ "C16": dict(cat="exploration", technique="runtime monitor on the real lexer's token stream (termination watchdog, end-token rule, substring embedding, capacity independence, metamorphic case/whitespace variants, printed-value tokens, goroutine-leak snapshot)",
+   text="Complete for all strings up to length 3 (quick) / 4 (thorough) over a 25-character alphabet at four channel capacities; sampled grammar-derived statements, mutations, random UTF-8/invalid bytes and printed values.",
+   note="Trusted: greedy leftmost embedding decides substring order; whitespace variants only alter whitespace between two token texts; one known finding (printed literal ending in a backslash).", ref="DESIGN.md §5 C16"),
  "C01": dict(cat="exploration", technique="runtime reference-model monitor: a map name->set(canonical triple) driven in lockstep with the real store, every observable compared after every step; small universes enumerated completely",
    text="Complete for three 4-triple universes (every subset by two paths x every single add/remove batch); sampled random histories (hundreds to thousands) over three graph names and a 12-triple universe with duplicates, overlaps, respelled zones and empty batches, observed after every step.",
    note="Trusted: the 30-line model and the canonical projection; three UUID-collision classes are known findings shared with C06.", ref="DESIGN.md §5 C01"),
